@@ -42,6 +42,11 @@ def cases(spec, ctx):
         # extremes and noise matter most here
         r["pics"]["class"] = ctx.rng.choice(["noise", "noise", "checker", "max", "zero", "mixed", "ramp", "mid"])
         yield {"recipe": r}
+        if ctx.rng.random() < 0.25:
+            for _ in range(ctx.rng.choice([1, 2])):
+                sb = configs.sibling(ctx.rng, r)
+                sb["pics"]["class"] = r["pics"]["class"]
+                yield {"recipe": sb}
 
 
 def stream_qindices(data):
